@@ -1,0 +1,126 @@
+/*
+ * Atree - Scalable Arrays and Ordered Maps
+ *
+ * Copyright Flow Foundation
+ *
+ * Licensed under the Apache License, Version 2.0 (the "License");
+ * you may not use this file except in compliance with the License.
+ * You may obtain a copy of the License at
+ *
+ *   http://www.apache.org/licenses/LICENSE-2.0
+ *
+ * Unless required by applicable law or agreed to in writing, software
+ * distributed under the License is distributed on an "AS IS" BASIS,
+ * WITHOUT WARRANTIES OR CONDITIONS OF ANY KIND, either express or implied.
+ * See the License for the specific language governing permissions and
+ * limitations under the License.
+ */
+
+//go:build verif
+
+package atree
+
+//@ # ---------------------------------------------------------------- shared: element sizes
+
+//@ ghost bs : fn(e Storable) int
+
+//@ axiom forall e Storable :: 1 <= bs(e) && bs(e) <= 4294967295 because "A4: ByteSize returns a uint32 and every encoded element occupies at least one byte (CBOR)"
+
+//@ iface Storable.ByteSize() (size)
+//@   ensures size == bs(recv)
+//@   pure
+
+//@ pred arrPrefix(a *ArrayDataSlab) = ite(a.inlined, 17, ite(a.extraData != nil, 5, 21))
+
+//@ pred wfADS(a *ArrayDataSlab) = a != nil && a.header.count == len(a.elements) &&
+//@      a.header.size == arrPrefix(a) + sum(bs, a.elements, len(a.elements)) &&
+//@      (forall k :: 0 <= k && k < len(a.elements) ==> a.elements[k] != nil)
+
+//@ pred elemsFit(a *ArrayDataSlab) = forall k :: 0 <= k && k < len(a.elements) ==> bs(a.elements[k]) <= maxInlineArrayElementSize
+
+//@ # ---------------------------------------------------------------- array_data_slab.go
+
+//@ func (a *ArrayDataSlab) getPrefixSize() (r)
+//@   ensures r == arrPrefix(a)
+//@   pure
+
+//@ func (a *ArrayDataSlab) IsFull() (r)  serves C05
+//@   ensures r == (a.header.size > maxThreshold)
+//@   pure
+
+//@ func (a *ArrayDataSlab) IsUnderflow() (deficit, under)  serves C05
+//@   ensures under == (a.header.size < minThreshold)
+//@   ensures under ==> deficit == minThreshold - a.header.size
+//@   ensures !under ==> deficit == 0
+//@   pure
+
+//@ func (a *ArrayDataSlab) Get(storage, index) (elem, err)  serves C01 C18
+//@   ensures index < len(a.elements) ==> err == nil && elem == a.elements[index]
+//@   ensures index >= len(a.elements) ==> err != nil && elem == nil && isUser(err)
+//@   pure
+
+//@ pred sameADS(a *ArrayDataSlab) = a.elements == old(a.elements) && a.header == old(a.header) && a.next == old(a.next) &&
+//@      a.inlined == old(a.inlined) && a.extraData == old(a.extraData)
+
+//@ func (a *ArrayDataSlab) Set(storage, address, index, value) (prev, err)  serves C01 C03 C05 C06 C18
+//@   requires wfADS(a) && storage != nil && value != nil && a.header.size <= maxThreshold
+//@   assume valueRoot(value) != a because "frame assumption F: the value being stored is not the container that owns slab a"
+//@   ensures[C18] index >= len(old(a.elements)) ==> err != nil && isUser(err) && sameADS(a) && sto == old(sto) && touched == old(touched)
+//@   ensures[C01] err == nil ==> index < len(old(a.elements)) && prev == old(a.elements)[index] && len(a.elements) == len(old(a.elements)) &&
+//@        (forall k :: 0 <= k && k < len(a.elements) && k != index ==> a.elements[k] == old(a.elements)[k])
+//@   ensures[C05] err == nil ==> bs(a.elements[index]) <= maxInlineArrayElementSize
+//@   ensures[C06] err == nil ==> wfADS(a) && a.header.size <= maxThreshold + maxInlineArrayElementSize
+//@   ensures[C03] err == nil && !a.inlined ==> has(stored, a) && sto[a.header.slabID] == a
+//@   ensures[C18] err != nil ==> categorised(err)
+//@   modifies a.elements, a.header, ghost.sto, ghost.stored, ghost.touched, alloc, as(valueRoot(value), *ArrayDataSlab).header, as(valueRoot(value), *ArrayDataSlab).inlined, as(valueRoot(value), *MapDataSlab).header, as(valueRoot(value), *MapDataSlab).inlined
+//@   loop 1: invariant 0 <= i && i <= len(a.elements) && size == arrPrefix(a) + sum(bs, a.elements, i)
+
+//@ func (a *ArrayDataSlab) Insert(storage, address, index, value) (err)  serves C01 C03 C05 C06 C18
+//@   requires wfADS(a) && storage != nil && value != nil && a.header.size <= maxThreshold && a.header.count < 4294967295
+//@   assume valueRoot(value) != a because "frame assumption F: the value being stored is not the container that owns slab a"
+//@   ensures[C18] index > len(old(a.elements)) ==> err != nil && isUser(err) && sameADS(a) && sto == old(sto) && touched == old(touched)
+//@   ensures[C01] err == nil ==> index <= len(old(a.elements)) && len(a.elements) == len(old(a.elements)) + 1 &&
+//@        (forall k :: 0 <= k && k < index ==> a.elements[k] == old(a.elements)[k]) &&
+//@        (forall k :: index < k && k < len(a.elements) ==> a.elements[k] == old(a.elements)[k-1])
+//@   ensures[C05] err == nil ==> bs(a.elements[index]) <= maxInlineArrayElementSize
+//@   ensures[C06] err == nil ==> wfADS(a) && a.header.size == old(a.header.size) + bs(a.elements[index])
+//@   ensures[C03] err == nil && !a.inlined ==> has(stored, a) && sto[a.header.slabID] == a
+//@   ensures[C18] err != nil ==> categorised(err)
+//@   modifies a.elements, a.header, ghost.sto, ghost.stored, ghost.touched, alloc, as(valueRoot(value), *ArrayDataSlab).header, as(valueRoot(value), *ArrayDataSlab).inlined, as(valueRoot(value), *MapDataSlab).header, as(valueRoot(value), *MapDataSlab).inlined
+
+//@ func (a *ArrayDataSlab) Remove(storage, index) (v, err)  serves C01 C03 C06 C18
+//@   requires wfADS(a) && storage != nil
+//@   ensures[C18] index >= len(old(a.elements)) ==> err != nil && isUser(err) && sameADS(a) && sto == old(sto) && touched == old(touched)
+//@   ensures[C01] err == nil ==> index < len(old(a.elements)) && v == old(a.elements)[index] && len(a.elements) == len(old(a.elements)) - 1 &&
+//@        (forall k :: 0 <= k && k < index ==> a.elements[k] == old(a.elements)[k]) &&
+//@        (forall k :: index <= k && k < len(a.elements) ==> a.elements[k] == old(a.elements)[k+1])
+//@   ensures[C06] err == nil ==> wfADS(a) && a.header.size == old(a.header.size) - bs(v)
+//@   ensures[C03] err == nil && !a.inlined ==> has(stored, a) && sto[a.header.slabID] == a
+//@   ensures[C18] err != nil ==> categorised(err)
+//@   modifies a.elements, a.header, ghost.sto, ghost.stored, ghost.touched, alloc
+
+//@ functype ArrayPopIterationFunc(s)
+//@   pure
+
+//@ func (a *ArrayDataSlab) PopIterate(storage, fn) (err)  serves C01 C06 C13
+//@   requires wfADS(a) && fn != nil
+//@   ensures err == nil && len(a.elements) == 0 && a.header.count == 0 && wfADS(a)
+//@   modifies a.elements, a.header, ghost.touched
+
+//@ pred inBandADS(a *ArrayDataSlab) = minThreshold <= a.header.size && a.header.size <= maxThreshold
+
+//@ func (a *ArrayDataSlab) Split(storage) (left, right, err)  serves C01 C05 C06 C09
+//@   requires wfADS(a) && elemsFit(a) && !a.inlined && a.extraData == nil && storage != nil
+//@   requires a.header.size > maxThreshold && a.header.size <= maxThreshold + maxInlineArrayElementSize + 16
+//@   ensures err != nil ==> categorised(err)
+//@   ensures err == nil ==> left == a && is(right, *ArrayDataSlab) && fresh(right)
+//@   ensures[C01] err == nil ==> len(a.elements) + len(as(right, *ArrayDataSlab).elements) == len(old(a.elements)) &&
+//@        (forall k :: 0 <= k && k < len(a.elements) ==> a.elements[k] == old(a.elements)[k]) &&
+//@        (forall k :: 0 <= k && k < len(as(right, *ArrayDataSlab).elements) ==> as(right, *ArrayDataSlab).elements[k] == old(a.elements)[len(a.elements) + k])
+//@   ensures[C05] err == nil ==> inBandADS(a) && inBandADS(as(right, *ArrayDataSlab)) && len(a.elements) >= 1 && len(as(right, *ArrayDataSlab).elements) >= 1
+//@   ensures[C06] err == nil ==> wfADS(a) && wfADS(as(right, *ArrayDataSlab)) && !as(right, *ArrayDataSlab).inlined && as(right, *ArrayDataSlab).extraData == nil
+//@   ensures[C09] err == nil ==> as(right, *ArrayDataSlab).next == old(a.next) && a.next == as(right, *ArrayDataSlab).header.slabID &&
+//@        as(right, *ArrayDataSlab).header.slabID.address == old(a.header.slabID.address) && a.header.slabID == old(a.header.slabID) &&
+//@        as(right, *ArrayDataSlab).header.slabID != SlabIDUndefined && sto[as(right, *ArrayDataSlab).header.slabID] == nil
+//@   modifies a.elements, a.header, a.next, ghost.touched, alloc
+//@   loop 1: invariant 0 <= i && i <= len(a.elements) && leftSize == sum(bs, a.elements, i) && leftSize < midPoint && leftCount == 0
